@@ -190,3 +190,104 @@ contract("decaylanguage.dec.dec.get_pythia_definitions", types={"parsed_file": "
 
 wrapper("dict_pythia_definitions", "get_pythia_definitions", ["C07"], "'pythia_def'")
 wrapper("get_particle_property_definitions", "get_particle_property_definitions", ["C07"], "'particle_def', 'alias'", {"RuntimeError": None})
+
+
+# ---- ModelAlias <NAME> <MODEL ...>: the table parse() expands aliases from (C05) -------------------------------------------
+def raw_alias_props(acc, S, n):
+    K = lambda j: f"{S}[{j}].children[0].children[0].value"
+    last = lambda j: f"forall(lambda l: implies({j} < l < {n}, {K('l')} != {K(j)}))"
+    E = lambda j: f"dget({acc}, {K(j)})"
+    return [
+        f"forallv(lambda k: implies(dhas({acc}, k), typ(k, 'str')))",
+        # every ModelAlias statement accounted for ...
+        f"forall(lambda j: implies(0 <= j < {n}, dhas({acc}, {K('j')})))",
+        # ... nothing invented ...
+        f"forallv(lambda k: implies(dhas({acc}, k), exists(lambda j: 0 <= j < {n} and {K('j')} == k)))",
+        # ... and the LAST statement of a name gives its model: a private deep copy of that statement's model children
+        f"forall(lambda j: implies(0 <= j < {n} and {last('j')}, typ({E('j')}, 'list') and copied_from({E('j')}, {S}[j].children[1].children)))",
+    ]
+
+
+SMA = "stmts(self._parsed_dec_file, 'model_alias')"
+contract("decaylanguage.dec.dec.DecFileParser._dict_raw_model_aliases",
+         requires=["self._parsed_dec_file is None or (typ(self._parsed_dec_file, 'obj:Tree') and wf_labels(self._parsed_dec_file, 'model_alias', 'model_label', 'model'))"],
+         ensures=["typ(result, 'dict') and isfresh(result)",
+                  # every stored definition is a new object: nothing of the parsed file is handed out
+                  "forallv(lambda k: implies(dhas(result, k), isfresh(dget(result, k))))"]
+                 + raw_alias_props("result", SMA, f"len({SMA})"),
+         raises={"DecFileNotParsed": "self._parsed_dec_file is None"},
+         loops={"comp#0": {"invariant": ["typ(_acc, 'dict') and isfresh(_acc)",
+                                         "forallv(lambda k: implies(dhas(_acc, k), typ(dget(_acc, k), 'list') and refnum(dget(_acc, k)) >= _loop_alloc))"]
+                                        + raw_alias_props("_acc", "_seq", "_i"),
+                           "types": {"_acc": "dict"}}},
+         returns="dict", properties=["C05"])
+
+
+# ---- lineshape settings: LS* / BlattWeisskopf / ChangeMassMin|Max / IncludeBirth|DecayFactor -------------------------------
+# (statement kind, name of the particle or alias, key of the setting, its value) — written from the property
+LS_KINDS = [
+    ("ls_def", "{t}.children[1].value", "'lineshape'", "same({e}, {t}.children[0].value)"),
+    ("setlsbw", "{t}.children[0].value", "'BlattWeisskopf'", "{e} == float({t}.children[1].value)"),
+    ("changemasslimit", "{t}.children[1].value", "{t}.children[0].value", "{e} == float({t}.children[2].value)"),
+    ("inc_factor", "{t}.children[1].value", "{t}.children[0].value", "{e} == ({t}.children[2].value == 'yes')"),
+]
+
+
+def ls_seq(c, cur):
+    """(sequence, length) expressions of statement kind c when the loop over kind `cur` is running (cur=4: at the end)"""
+    S = f"stmts(parsed_file, '{LS_KINDS[c][0]}')"
+    if c < cur:
+        return S, f"len({S})"
+    if c == cur:
+        return "_seq", "_i"
+    return S, "0"
+
+
+def ls_dup(c, S, n):
+    _, N, K, _ = LS_KINDS[c]
+    t = lambda j: f"{S}[{j}]"
+    return f"exists(lambda j, l: 0 <= j < l < {n} and {N.format(t=t('j'))} == {N.format(t=t('l'))} and {K.format(t=t('j'))} == {K.format(t=t('l'))})"
+
+
+def ls_props(d, cur):
+    out = [f"forallv(lambda p: implies(dhas({d}, p), typ(p, 'str') and typ(dget({d}, p), 'dict')))"]
+    named, keyed = [], []
+    for c, (_, N, K, V) in enumerate(LS_KINDS):
+        S, n = ls_seq(c, cur)
+        if n == "0":
+            continue
+        t = f"{S}[j]"
+        Nj, Kj = N.format(t=t), K.format(t=t)
+        e = f"dget(dget({d}, {Nj}), {Kj})"
+        # every statement accounted for: the setting is reported under the particle / alias, with its value
+        out.append(f"forall(lambda j: implies(0 <= j < {n}, dhas({d}, {Nj}) and dhas(dget({d}, {Nj}), {Kj}) and {V.format(t=t, e=e)}))")
+        # no setting is given twice (a repeated setting is an error, not an override)
+        out.append(f"not {ls_dup(c, S, n)}")
+        named.append(f"exists(lambda j: 0 <= j < {n} and {Nj} == p)")
+        keyed.append(f"exists(lambda j: 0 <= j < {n} and {Nj} == p and {Kj} == k)")
+    # nothing invented: every particle reported, and every setting reported for it, comes from a statement
+    out.append(f"forallv(lambda p: implies(dhas({d}, p), {' or '.join(named) if named else 'False'}))")
+    out.append(f"forallv(lambda p, k: implies(dhas({d}, p) and dhas(dget({d}, p), k), {' or '.join(keyed) if keyed else 'False'}))")
+    return out
+
+
+def ls_inv(cur):
+    return (["typ(d, 'dict') and isfresh(d)",
+             # the per-particle dictionaries are objects of their own, made in this call
+             "forallv(lambda p: implies(dhas(d, p), isfresh(dget(d, p))))",
+             "forallv(lambda p, q: implies(dhas(d, p) and dhas(d, q) and p != q, not same(dget(d, p), dget(d, q))))"]
+            + ls_props("d", cur))
+
+
+import os  # noqa: E402
+
+# WIP (152 of 166 obligations discharged so far: the preservation of the loop#2/loop#3 invariants and three raise-path
+# obligations are still open) — registered only on request, counted nowhere
+if os.environ.get("PYVC_WIP"):
+  contract("decaylanguage.dec.dec.get_lineshape_settings", types={"parsed_file": "obj:Tree"},
+           requires=["wf_labels(parsed_file, 'ls_def', 'setlsbw', 'changemasslimit', 'inc_factor')"],
+           ensures=["typ(result, 'dict') and isfresh(result)"] + ls_props("result", 4),
+           # a repeated setting (same kind of setting for the same particle or alias) is refused
+           raises={"RuntimeError": " or ".join(ls_dup(c, f"stmts(parsed_file, '{LS_KINDS[c][0]}')", f"len(stmts(parsed_file, '{LS_KINDS[c][0]}'))") for c in range(4))},
+           loops={f"loop#{c}": {"invariant": ls_inv(c), "types": {"d": "dict"}, "modifies": ["fresh_objects()"]} for c in range(4)},
+           returns="dict", properties=[])
